@@ -228,7 +228,7 @@ def _merge_spec(I, paths, observe):
     return out
 
 
-TASK_BUDGET_S = int(os.environ.get("PYVC_TASK_BUDGET_S", "240"))
+TASK_BUDGET_S = int(os.environ.get("PYVC_TASK_BUDGET_S", "420"))
 
 
 def _run(task, I, res, seed, tier):
@@ -270,7 +270,10 @@ def _run(task, I, res, seed, tier):
             sd = z3.Solver()
             sd.add(*fs)
             open("/tmp/dump.smt2", "w").write(sd.to_smt2())
-        st, model, backend, secs = solve.check(fs)
+        if kind == "cover":
+            st, model, backend, secs = solve.check(fs, timeout_ms=6000, use_cvc5=False)   # engine sanity only
+        else:
+            st, model, backend, secs = solve.check(fs)
         if st == "unsat":
             obls.append(obligation(name, "discharged", backend, secs, kind=kind))
             return True
